@@ -776,7 +776,22 @@ func (fr *frame) atAsserts(key string, site *ssa.Call, args []TV, c *ssa.CallCom
 				callee, ordinal = callee[:i], n
 			}
 		}
+		// <$k>:<callee>: calls made by the k-th function literal of the function (numbered
+		// within the literal); without the prefix a numbered clause speaks of the calls the
+		// function makes itself
+		closureTag := ""
+		if i := strings.Index(callee, ":"); i > 0 && strings.HasPrefix(callee, "$") {
+			closureTag, callee = callee[:i], callee[i+1:]
+		}
 		if !(key == callee || strings.HasSuffix(key, "."+callee) || strings.HasSuffix(key, "/"+callee)) {
+			continue
+		}
+		inLiteral := !fr.isTop && fr.fn.Parent() != nil
+		if closureTag != "" {
+			if !inLiteral || !strings.HasSuffix(FuncKey(fr.fn), closureTag) {
+				continue
+			}
+		} else if ordinal > 0 && inLiteral {
 			continue
 		}
 		if ordinal > 0 && site != nil && fr.callOrdinal(site, callee) != ordinal {
